@@ -196,6 +196,8 @@ def body_to_python(body):
             raise Unsupported('declaration %r' % s)
         if re.match(r'^for\s+\w+\s+from\b', s):
             raise Unsupported('loop')
+        # address of a scalar local or of a constant cell of a vector, passed as an output pointer
+        s = re.sub(r'&\s*([A-Za-z_]\w*(?:\[\s*\d+\s*\])?)\s*(?=[,)])', r'__ref__(\1)', s)
         out.append(ind + s)
     src = textwrap.dedent('\n'.join(out))
     return src
@@ -388,9 +390,21 @@ class Gen(object):
                 if kind == 'scalar':
                     args.append(expr(a, env, self.cx))
                 elif kind == 'outptr':
+                    cells = [o for o in outs if o[0] == pn]
+                    if isinstance(a, ast.Call) and isinstance(a.func, ast.Name) and a.func.id == '__ref__' and len(a.args) == 1:
+                        # &local or &vec[const]: the callee's cell 0 is that variable / cell
+                        if [i for _pn, i in cells] != [0]:
+                            raise Unsupported('address-of argument for a pointer written beyond cell 0')
+                        key = self.key(a.args[0])
+                        if key not in env:
+                            if isinstance(a.args[0], ast.Name):
+                                raise Unsupported('address of undeclared local %s' % key)
+                            raise Unsupported('pointer %s not an output cell here' % key)
+                        args.append(env[key])
+                        bind.append(key)
+                        continue
                     if not isinstance(a, ast.Name):
                         raise Unsupported('pointer argument expression')
-                    cells = [o for o in outs if o[0] == pn]
                     for (_pn, i) in cells:
                         key = '%s[%d]' % (a.id, i)
                         if key not in env:
@@ -443,6 +457,9 @@ def out_cells(params, tree, known):
                     for (qn, i) in couts:
                         if qn == pn:
                             cells.add((a.id, i))
+                if kind == 'outptr' and isinstance(a, ast.Call) and isinstance(a.func, ast.Name) and a.func.id == '__ref__' and len(a.args) == 1 \
+                        and isinstance(a.args[0], ast.Subscript) and isinstance(a.args[0].value, ast.Name) and a.args[0].value.id in names and is_int_lit(a.args[0].slice):
+                    cells.add((a.args[0].value.id, a.args[0].slice.value))
         tgts = []
         if isinstance(node, ast.Assign):
             tgts = node.targets
@@ -780,6 +797,7 @@ def translate_imp(module, name, ret, ptext, body, consts, known, imp_known):
             raise Unsupported('declaration %r' % s)
         s = re.sub(r'&\s*(\w+)\s*\[\s*0+(\s*,\s*0+)*\s*\]', r'\1', s)
         s = re.sub(r'&\s*([A-Za-z_]\w*)\s*(?=[,)])', r'__ref__(\1)', s)       # address of a scalar local: an output cell of a scalar kernel
+        s = re.sub(r'&\s*([A-Za-z_]\w*)\s*\[([^\[\]]+)\]', r'__refcell__(\1, \2)', s)   # address of an array cell: output cells from that offset on
         if '&' in s:
             raise Unsupported('address of an array cell')
         lines.append(ind + s)
@@ -1002,6 +1020,9 @@ def translate_imp(module, name, ret, ptext, body, consts, known, imp_known):
             if f == '__alloc__':
                 continue
             if f in known and f not in imp_known:
+                for a in node.value.args:
+                    if isinstance(a, ast.Call) and isinstance(a.func, ast.Name) and a.func.id == '__refcell__' and isinstance(a.args[0], ast.Name):
+                        note(a.args[0].id)
                 continue
             if f not in imp_known:
                 raise Unsupported('call of %s' % f)
@@ -1125,22 +1146,35 @@ def translate_imp(module, name, ret, ptext, body, consts, known, imp_known):
                     if pk == 'scalar':
                         sargs.append(fexpr(a))
                     elif pk == 'outptr':
-                        if not (isinstance(a, ast.Call) and isinstance(a.func, ast.Name) and a.func.id == '__ref__' and isinstance(a.args[0], ast.Name)
-                                and kind_of(a.args[0].id) == 'flt' and res(a.args[0].id) not in kinds):
+                        if isinstance(a, ast.Call) and isinstance(a.func, ast.Name) and a.func.id == '__ref__' and isinstance(a.args[0], ast.Name) \
+                                and kind_of(a.args[0].id) == 'flt' and res(a.args[0].id) not in kinds:
+                            refs[pn] = ('local', ln(a.args[0].id), None)
+                        elif isinstance(a, ast.Call) and isinstance(a.func, ast.Name) and a.func.id == '__refcell__' and isinstance(a.args[0], ast.Name) \
+                                and kinds.get(res(a.args[0].id)) == 'arr':
+                            note(a.args[0].id)
+                            refs[pn] = ('cell', ln(a.args[0].id), nexpr(a.args[1]))
+                        elif isinstance(a, ast.Name) and kinds.get(res(a.id)) == 'arr':
+                            refs[pn] = ('cell', ln(a.id), '0')
+                        else:
                             raise Unsupported('output pointer argument of %s' % f)
-                        refs[pn] = ln(a.args[0].id)
                     else:
                         raise Unsupported('argument kind %s of %s' % (pk, f))
-                if any(i != 0 for _pn, i in kcells) or {pn for pn, _i in kcells} != set(refs):
+                if {pn for pn, _i in kcells} != set(refs) or any(refs[pn][0] == 'local' and i != 0 for pn, i in kcells):
                     raise Unsupported('output cells of %s' % f)
+
+                def cell_in(pn, i):
+                    kind_, nm_, off_ = refs[pn]
+                    return nm_ if kind_ == 'local' else '(%s.getD (%s + %d) (c 0))' % (nm_, off_, i)
                 cx.calls.add(f)
-                call = '%s %s' % (lean_name(f), ' '.join(sargs + [refs[pn] for pn, _i in kcells]))
-                if len(kcells) == 1:
-                    out.append('%s%s := %s' % (pad, refs[kcells[0][0]], call))
-                else:
-                    out.append('%slet r_ := %s' % (pad, call))
-                    for i, (pn, _i) in enumerate(kcells):
-                        out.append('%s%s := %s' % (pad, refs[pn], proj('r_', i, len(kcells))))
+                call = '%s %s' % (lean_name(f), ' '.join(sargs + [cell_in(pn, i) for pn, i in kcells]))
+                out.append('%slet r_ := %s' % (pad, call))
+                for j, (pn, i) in enumerate(kcells):
+                    kind_, nm_, off_ = refs[pn]
+                    val = proj('r_', j, len(kcells))
+                    if kind_ == 'local':
+                        out.append('%s%s := %s' % (pad, nm_, val))
+                    else:
+                        out.append('%s%s := %s.setIfInBounds (%s + %d) %s' % (pad, nm_, nm_, off_, i, val))
             elif isinstance(st, ast.Expr) and isinstance(st.value, ast.Call) and isinstance(st.value.func, ast.Name):
                 f = st.value.func.id
                 cp, cw, cr = imp_known[f]
